@@ -13,8 +13,10 @@
 (* concurrently and may interleave anywhere between them:                  *)
 (*   NewReport       usageTracker.NewReport under the tracker mutex        *)
 (*   RespondFail     SendCustomMessage returns an error: report abandoned  *)
-(*   RespondPending  SendCustomMessage returns ErrCustomMessagePending     *)
-(*   PrevSent        the previous message's channel closes; second attempt *)
+(*   RespondPending  SendCustomMessage returns ErrCustomMessagePending: wait*)
+(*                   for the message in the way, or give up with an error  *)
+(*                   once the report has been offered Attempts times       *)
+(*   PrevSent        the message in the way has been sent; next attempt    *)
 (*   Accept          SendCustomMessage accepts the message                 *)
 (*   Ack             the accepted message's channel closes: completeSend   *)
 (* rep[s] is the usage carried by the report being sent, delivered[s] the  *)
@@ -33,6 +35,8 @@
 (* and Add creates a key even for a zero delta), so an absent key is       *)
 (* modelled as -1; ZeroReports = "never" is the other natural convention   *)
 (* (no report unless some usage is non-zero).  The check accepts either.   *)
+(* Also open: how often a report is retried after "pending" (the code: one *)
+(* retry, Attempts = 2; Attempts = 3 is accepted as well).                 *)
 (***************************************************************************)
 EXTENDS Integers, FiniteSets, TLC, Json
 
@@ -40,11 +44,12 @@ CONSTANTS Signals,    \* set of strings
           MaxCum,     \* horizon of each cumulative counter
           Steps,      \* growth increments
           Overwrite,  \* FALSE: property / patched code; TRUE: unpatched code
-          ZeroReports \* "keys" | "never"
+          ZeroReports,\* "keys" | "never"
+          Attempts    \* how often one report is offered to the client when it answers "pending"
 
-VARIABLES cum, seen, cur, pend, rep, phase, res, delivered, act
+VARIABLES cum, seen, cur, pend, rep, phase, att, res, delivered, act
 
-vars == <<cum, seen, cur, pend, rep, phase, res, delivered, act>>
+vars == <<cum, seen, cur, pend, rep, phase, att, res, delivered, act>>
 
 Zero == [s \in Signals |-> 0]
 
@@ -53,31 +58,32 @@ None == IF ZeroReports = "keys" THEN 0 - 1 ELSE 0
 Empty == [s \in Signals |-> None]
 V(x) == IF x < 0 THEN 0 ELSE x
 
-Phases == {"idle", "offered", "waitprev", "offered2", "accepted"}
+Phases == {"idle", "offered", "waitprev", "accepted"}
 Results == {"none", "nodata", "fail", "ok"}
 
 \* what an observer of the OpAMP client and of sendUsageReport's result sees
 Abs == [ phase     |-> phase,
+         attempt   |-> att,          \* SendCustomMessage calls made for the report being sent (0 when idle)
          report    |-> rep,          \* usage per signal in the message being sent (zero when idle)
          delivered |-> delivered,    \* usage per signal in acknowledged messages
          res       |-> res ]         \* outcome of the last finished sendUsageReport
 
 Init == /\ cum = Zero /\ seen = Zero /\ cur = Empty /\ pend = Empty /\ rep = Zero
         /\ delivered = Zero
-        /\ phase = "idle" /\ res = "none"
+        /\ phase = "idle" /\ att = 0 /\ res = "none"
         /\ act = [name |-> "Init"]
 
 \* the underlying counter of the metrics store grows
 Grow(s, d) == /\ cum[s] + d <= MaxCum
               /\ cum' = [cum EXCEPT ![s] = @ + d]
-              /\ UNCHANGED <<seen, cur, pend, rep, phase, res, delivered>>
+              /\ UNCHANGED <<seen, cur, pend, rep, phase, att, res, delivered>>
               /\ act' = [name |-> "Grow", s |-> s, d |-> d]
 
 \* healthCheck: usageTracker.Add(s, metrics.Get(...)); a zero reading is ignored
 Sample(s) == /\ IF cum[s] = 0 THEN UNCHANGED <<cur, seen>>
                 ELSE /\ cur' = [cur EXCEPT ![s] = V(@) + (cum[s] - seen[s])]
                      /\ seen' = [seen EXCEPT ![s] = cum[s]]
-             /\ UNCHANGED <<cum, pend, rep, phase, res, delivered>>
+             /\ UNCHANGED <<cum, pend, rep, phase, att, res, delivered>>
              /\ act' = [name |-> "Sample", s |-> s]
 
 NothingToReport == IF ZeroReports = "keys" THEN cur = Empty /\ pend = Empty
@@ -88,43 +94,43 @@ NewReport ==
   /\ phase = "idle"
   /\ \/ /\ NothingToReport                      \* errNoData
         /\ res' = "nodata"
-        /\ UNCHANGED <<cur, pend, rep, phase>>
+        /\ UNCHANGED <<cur, pend, rep, phase, att>>
      \/ /\ ~NothingToReport
         /\ rep' = [s \in Signals |-> V(cur[s]) + V(pend[s])]
         /\ pend' = IF Overwrite THEN cur
                    ELSE [s \in Signals |-> IF cur[s] = None THEN pend[s] ELSE V(pend[s]) + V(cur[s])]
         /\ cur' = Empty
-        /\ phase' = "offered"
+        /\ phase' = "offered" /\ att' = 1
         /\ res' = "none"
   /\ UNCHANGED <<cum, seen, delivered>>
   /\ act' = [name |-> "NewReport"]
 
-Abandon == /\ phase' = "idle" /\ res' = "fail" /\ rep' = Zero
+Abandon == /\ phase' = "idle" /\ att' = 0 /\ res' = "fail" /\ rep' = Zero
            /\ UNCHANGED <<cum, seen, cur, pend, delivered>>
 
 \* SendCustomMessage returns an error other than "pending"
-RespondFail == /\ phase \in {"offered", "offered2"}
+RespondFail == /\ phase = "offered"
                /\ Abandon
                /\ act' = [name |-> "RespondFail"]
 
-\* SendCustomMessage returns ErrCustomMessagePending: wait for the previous
-\* message, retry once; a second "pending" is an ordinary failure
+\* SendCustomMessage returns ErrCustomMessagePending: wait for the message that is
+\* in the way and retry; "pending" on the last attempt is an ordinary failure
 RespondPending ==
-  /\ \/ /\ phase = "offered"
-        /\ phase' = "waitprev"
-        /\ UNCHANGED <<cum, seen, cur, pend, rep, res, delivered>>
-     \/ /\ phase = "offered2"
-        /\ Abandon
+  /\ phase = "offered"
+  /\ IF att < Attempts
+       THEN /\ phase' = "waitprev"
+            /\ UNCHANGED <<cum, seen, cur, pend, rep, att, res, delivered>>
+       ELSE Abandon
   /\ act' = [name |-> "RespondPending"]
 
 PrevSent == /\ phase = "waitprev"
-            /\ phase' = "offered2"
+            /\ phase' = "offered" /\ att' = att + 1
             /\ UNCHANGED <<cum, seen, cur, pend, rep, res, delivered>>
             /\ act' = [name |-> "PrevSent"]
 
-Accept == /\ phase \in {"offered", "offered2"}
+Accept == /\ phase = "offered"
           /\ phase' = "accepted"
-          /\ UNCHANGED <<cum, seen, cur, pend, rep, res, delivered>>
+          /\ UNCHANGED <<cum, seen, cur, pend, rep, att, res, delivered>>
           /\ act' = [name |-> "Accept"]
 
 \* the accepted message has been sent: completeSend clears lastDataPoints
@@ -132,7 +138,7 @@ Ack == /\ phase = "accepted"
        /\ delivered' = [s \in Signals |-> delivered[s] + rep[s]]
        /\ pend' = Empty
        /\ rep' = Zero
-       /\ phase' = "idle" /\ res' = "ok"
+       /\ phase' = "idle" /\ att' = 0 /\ res' = "ok"
        /\ UNCHANGED <<cum, seen, cur>>
        /\ act' = [name |-> "Ack"]
 
@@ -145,7 +151,8 @@ Spec == Init /\ [][Next]_vars
 TypeOK == /\ cum \in [Signals -> 0 .. MaxCum] /\ seen \in [Signals -> 0 .. MaxCum]
           /\ cur \in [Signals -> Int] /\ pend \in [Signals -> Int]
           /\ rep \in [Signals -> Int] /\ delivered \in [Signals -> Int]
-          /\ phase \in Phases /\ res \in Results
+          /\ phase \in Phases /\ res \in Results /\ att \in 0 .. Attempts
+          /\ (phase = "idle") = (att = 0)
 
 \* C34: delivered usage = growth of the counters minus what is still waiting
 \* (not sampled yet, not reported yet, reported but unconfirmed)
@@ -166,13 +173,24 @@ DeliveredMonotone == [][\A s \in Signals : delivered'[s] >= delivered[s]]_vars
 \* a failed or pending send never changes what was delivered; only Ack does
 OnlyAckDelivers == [][delivered' # delivered => act'.name = "Ack"]_vars
 
+\* usage that was put in a report stays unconfirmed until a report carrying it is
+\* acknowledged: no client answer (failure, "pending" on the first attempt, "pending"
+\* again on the retry) and no sampling clears or changes it
+OnlyAckClearsPending == [][pend' # pend => act'.name \in {"NewReport", "Ack"}]_vars
+
+\* in particular the scenario "pending, previous message sent, pending again" (on
+\* the last attempt): sendUsageReport gives up with an error and everything stays as it was
+PendingTwiceKeeps ==
+  [][(phase = "offered" /\ att = Attempts /\ act'.name = "RespondPending")
+       => (pend' = pend /\ cur' = cur /\ delivered' = delivered /\ phase' = "idle" /\ res' = "fail")]_vars
+
 \* edge dump used by the conformance replay
 \* (map keys are given separately so that the initial state reads the same under both conventions)
 HasKey(x) == ZeroReports = "keys" /\ x >= 0
 St == [cum |-> cum, seen |-> seen,
        cur |-> [s \in Signals |-> V(cur[s])], curKeySet |-> {s \in Signals : HasKey(cur[s])},
        pend |-> [s \in Signals |-> V(pend[s])], pendKeySet |-> {s \in Signals : HasKey(pend[s])},
-       rep |-> rep, phase |-> phase, res |-> res, delivered |-> delivered]
+       rep |-> rep, phase |-> phase, att |-> att, res |-> res, delivered |-> delivered]
 Dump == PrintT(ToJson([fs |-> St, fa |-> act.name, act |-> act', ts |-> St', fabs |-> Abs, tabs |-> Abs']))
-View == <<cum, seen, cur, pend, rep, phase, res, delivered>>
+View == <<cum, seen, cur, pend, rep, phase, att, res, delivered>>
 =============================================================================
